@@ -362,3 +362,15 @@ def build():
     C.assume("no await/re-entrancy between request_to_start_game approval and player_added (single "
              "process_event_queue run): stated as rely")
     return C
+
+
+def build_extra():
+    # 'a player is added only when the credits handler approved the request': the game side - a denied
+    # player_add_request (the credits mode returns False when there are too few credits) adds no player, whatever the
+    # state of the player list (C06's contracts P1-P3 on the player-add path, restricted)
+    from . import C06
+    c06 = C06.build()
+    c06.pid = "C20b"
+    c06.replay_pid = "C06"
+    c06.only_verify = ["Game._player_add_request_complete", "Game.request_player_add"]
+    return [c06]
